@@ -184,15 +184,29 @@ def run(ctx):
         bad_s = bad_c = None
         from .c03 import transfers_of
         kinds = set()
-        for q in dp.ok_paths():
+
+        def intake_helper(e):
+            # the native/cw20 intake moved into a helper: it sees the attached funds (MessageInfo) and branches on the collateral kind
+            t_ = e.target
+            if t_.crate != ENG or not any("MessageInfo" in t_.locals[i + 1]["ty"] for i in range(t_.arg_count)):
+                return False
+            try:
+                return any(tag(at) == "op" and payload(at)[0] == "discr" and isinstance(o, tuple) and (o[0] == "variant" and o[1] in ("NativeToken", "Token") or o[0] == "other")
+                           for p_ in ix.ok_paths(t_) for (at, o, _b, _l) in p_.conds)
+            except Exception:
+                return False
+        dpaths = splice(ix, dp.ok_paths(), intake_helper)
+        for q in dpaths:
             for val in em.stored_position(dp, q):
                 m_ = N(ix, dp.c(sym.field(val, "margin")))
                 if not (m_[0] == "add" and ("leaf", amt) in m_[1:] and any(x[0] == "leaf" and tag(x[1]) == "field" and payload(x[1])[0] == "margin" for x in m_[1:])):
                     bad_s = bad_s or "stored margin = %s" % norm.show(m_)
             native = None
             for (at, o, _b, _l) in q.conds:
-                if tag(at) == "op" and payload(at)[0] == "discr" and o[0] == "variant" and o[1] in ("NativeToken", "Token"):
+                if tag(at) == "op" and payload(at)[0] == "discr" and isinstance(o, tuple) and o[0] == "variant" and o[1] in ("NativeToken", "Token"):
                     native = o[1] == "NativeToken"
+                if tag(at) == "op" and payload(at)[0] == "discr" and isinstance(o, tuple) and o[0] == "other" and len(o[1]) == 1 and o[1][0] in ("NativeToken", "Token"):
+                    native = o[1][0] == "Token"      # `if let Token {..} = .. else ..` spells the same two-way decision
             if native is True:
                 kinds.add("native")
                 ok = False
@@ -211,7 +225,7 @@ def run(ctx):
                     bad_c = bad_c or "cw20 arm does not pull exactly msg.amount from info.sender into the engine"
         # the native assertion helper accepts equality only
         helper = None
-        for q in dp.ok_paths():
+        for q in dpaths:
             for e in q.events:
                 if e.target is not None and any(tag(ix.inline(a)) == "agg" and payload(ix.inline(a))[0].endswith("asset::Asset") for a in e.args) \
                         and "MessageInfo" in " ".join(e.target.locals[i + 1]["ty"] for i in range(e.target.arg_count)):
